@@ -75,6 +75,10 @@ SER_CLASSES = ["LayerNorm", "VectorNeuronNonlinear", "GroupAverage", "ModelWrapp
 
 def gen_plan(rng, profile: dict, seed: int) -> dict:
     mode = profile.get("mode", "lifecycle")
+    if mode == "lifecycle" and profile.get("fixed_cfgs"):
+        cfgs = profile["fixed_cfgs"]
+        cfg = dict(cfgs[rng.randrange(len(cfgs))])
+        return {"mode": mode, "cfg": cfg, "model_key": rng.getrandbits(31), "twin_key": rng.getrandbits(31), "x_seed": rng.getrandbits(24), "events": gen_events(rng, 1, 3)}
     if mode == "lifecycle":
         cfg = zoo.gen_cfg(rng, classes=profile.get("classes"), dims=tuple(profile.get("dims", (2, 2, 2, 3))))
         return {
@@ -233,8 +237,16 @@ def execute(plan: dict, ctx: dict) -> dict:
         return _result(world, 0, counters, kinds, violations, discarded=True)
     expected = zoo.expected_signature(cfg) if lifecycle else None
     if lifecycle and expected is None:
-        bump("outside_oracle_residual_types")
-        return _result(world, 0, counters, kinds, violations, discarded=True)
+        # the oracle predicts that the network's own residual addition is ill-typed for this bank
+        # (the set of reachable types changes inside a residual block): the model cannot return anything
+        try:
+            zoo.call_model(model, x)
+            bump("oracle_predicts_ill_typed_but_model_returns")
+            return _result(world, 0, counters, kinds, violations, discarded=True)
+        except Exception as e:
+            tag = "raises:residual_types" if "Must have same types" in str(e) else "raises"
+            viol("C20", "raises", {"where": "fresh", "error": f"{type(e).__name__}: {str(e)[:300]}", "cfg": cfg}, f"{site0}/{tag}/fresh")
+            return _result(world, 1, counters, ["ill_typed_residual"], violations)
     if lifecycle and [t for t, _ in expected] != [(k, p) for k, p, _ in cfg["out_sig"]]:
         bump("unreachable_types_configs")
     state = "fresh"
@@ -244,7 +256,8 @@ def execute(plan: dict, ctx: dict) -> dict:
         try:
             out = zoo.call_model(m, xin)
         except Exception as e:
-            viol("C20", "raises", {"where": where, "error": f"{type(e).__name__}: {str(e)[:300]}"}, f"{site0}/{where}")
+            tag = "raises:in_channels" if "in_channels" in str(e) else "raises"
+            viol("C20", "raises", {"where": where, "error": f"{type(e).__name__}: {str(e)[:300]}", "cfg": cfg}, f"{site0}/{tag}/{where}")
             return None
         evals += 1
         err = conform(out, cfg, expected, xin, ordered)
@@ -253,7 +266,9 @@ def execute(plan: dict, ctx: dict) -> dict:
         return out
 
     if lifecycle:
-        check_conformance(model, x, "fresh")
+        if check_conformance(model, x, "fresh") is None:
+            # the fresh model cannot be applied at all: no later event is meaningful
+            return _result(world, evals, counters, ["fresh_raises"], violations)
     with world:
         for i, ev in enumerate(plan["events"]):
             kind = ev["ev"]
